@@ -20,7 +20,12 @@ RULE = ("cases = (parser specification, argv). Specifications: 6 fixed signature
         "And a VALUE-SHAPE family: values containing every character that str.splitlines / regex '.', '$', '\\s' / str.strip treat "
         "specially (leading, inner, trailing) for value, optional-value, list flags, positionals and core value flags in the "
         "'=', glued and spaced spellings must be accepted verbatim; integer texts (zero-padded, prefixed literals, underscores, "
-        "surrounding whitespace, non-ASCII digits) for int flags / positionals must be accepted iff Python's int(text) accepts them")
+        "surrounding whitespace, non-ASCII digits) for int flags / positionals must be accepted iff Python's int(text) accepts them; "
+        "str.format / %-formatting metacharacters ('{', '}', '{}', '{0}', '{x}', '${V}', '{!r}', '%s', '%(x)s', '{{', '1.5}', ...) "
+        "for EVERY owner - str (verbatim), int and float flags / positionals (refused with the documented ParseError whose "
+        "message names the argument and quotes the value), Boolean and incrementable flags ('=' / glued attachment: nothing but "
+        "ParseError) - in the '=', spaced (long and short), glued and positional spellings; float and no-value owners are "
+        "outside the Lean model and judged by the oracle only")
 TRUSTED = ["Lean 4.33 kernel", "axioms propext/Classical.choice/Quot.sound only",
            "harness/props/c07.py correspondence + canonicalisation", "tools/extractors/parser.py (state table, dispatch probes)",
            "model Invoke/Model/Parser.lean hand-written, tied by correspondence on every run",
@@ -155,7 +160,7 @@ def mk_task(td):
 def mk_ctx(cs):
     """cs = {"name", "aliases", "args": [{"names", "kind", "default", "positional", "optional", "incrementable", "attr"}]}"""
     from invoke.parser import ParserContext, Argument
-    kinds = {"str": str, "int": int, "bool": bool, "list": list}
+    kinds = {"str": str, "int": int, "bool": bool, "list": list, "float": float}
     args = [Argument(names=tuple(a["names"]), kind=kinds[a.get("kind", "str")], default=a.get("default"),
                      positional=a.get("positional", False), optional=a.get("optional", False),
                      incrementable=a.get("incrementable", False), attr_name=a.get("attr")) for a in cs["args"]]
@@ -610,10 +615,29 @@ INT_VALUES = ["0", "7", "00", "08", "007", "010", "-09", "+010", "-0", "0x1f", "
               " 7", "7 ", "7\n", "\t7", "\x0b7", "7\x1c", "+ 7", "", "+", "-", "7 7", "1e3", "1.0", "\u0663", "\uff17", "1\u0663",
               "\xa07", "7\u2003", "\x857", "99999999999999999999"]
 
+# everything `str.format` / `%`-formatting treat specially: a value is data, never part of a template
+FORMAT_VALUES = ["{", "}", "{}", "{0}", "{x}", "${V}", "{!r}", "%s", "%(x)s", "{{", "}}", "{{ x }}", "1.5}", "{0", "}{", "%", "%d",
+                 "{:d}", "{0.real}", "{0[0]}"]
+FLOAT_VALUES = ["2.5", "1e3", "-0.5", " 7", "abc", "1,5", "0x1f", ""]
+
 VALSHAPE_SIG = {"id": "V1", "initial": MINI_CORE, "ign": False, "tasks": [
     {"name": "vt", "params": [["pos"], ["msg", "m"], ["num", 1], ["opt", None], ["lst", None]], "optional": ["opt"], "iterable": ["lst"]},
     {"name": "nx", "params": [["flag", False]]}],
     "contexts": [{"name": "ip", "aliases": [], "args": [{"names": ["n"], "kind": "int", "positional": True}]}]}
+
+
+# kinds outside the Lean model (float) and flags that take no value at all: judged by the oracle only
+VALSHAPE2_SIG = {"id": "V2", "initial": None, "ign": False, "tasks": [
+    {"name": "ft", "params": [["ratio", 1.5], ["level", 2], ["on", False], ["cnt", 0]], "incrementable": ["cnt"]},
+    {"name": "nx", "params": [["flag", False]]}],
+    "contexts": [{"name": "fp", "aliases": [], "args": [{"names": ["x"], "kind": "float", "positional": True}]}]}
+
+
+def py_float(text):
+    try:
+        return float(text)
+    except ValueError:
+        return None
 
 
 def py_int(text):
@@ -629,7 +653,14 @@ def valshape_cases():
     str_owners = [("vt", "msg", "--msg", "-m"), ("vt", "opt", "--opt", "-o"), ("vt", "lst", "--lst", "-l"),
                   ("vt", "pos", None, None), (None, "hide", "--hide", None)]
     int_owners = [("vt", "num", "--num", "-n"), (None, "command-timeout", "--command-timeout", "-T"), ("ip", "n", None, None)]
-    for owners, pool, typ in ((str_owners, SPECIAL_VALUES, "str"), (int_owners, INT_VALUES, "int")):
+    float_owners = [("ft", "ratio", "--ratio", "-r"), ("fp", "x", None, None)]
+    int2_owners = [("ft", "level", "--level", "-l")]
+    novalue_owners = [("ft", "on", "--on", "-o"), ("ft", "cnt", "--cnt", "-c")]
+    for sigid, owners, pool, typ in (("V1", str_owners, SPECIAL_VALUES + FORMAT_VALUES, "str"),
+                                     ("V1", int_owners, INT_VALUES + FORMAT_VALUES, "int"),
+                                     ("V2", float_owners, FLOAT_VALUES + FORMAT_VALUES, "float"),
+                                     ("V2", int2_owners, ["7", "x"] + FORMAT_VALUES, "int"),
+                                     ("V2", novalue_owners, ["1", "x"] + FORMAT_VALUES, "novalue")):
         for task, key, lng, sht in owners:
             for v in pool:
                 forms = []
@@ -642,17 +673,19 @@ def valshape_cases():
                     forms.append(("spaced", [lng, v]))
                     if sht:
                         forms.append(("eq", [sht + "=" + v]))
+                        forms.append(("spaced", [sht, v]))
                         if v and not v.startswith("="):
                             forms.append(("glued", [sht + v]))
                 for form, toks in forms:
-                    cases.append({"kind": "valshape", "typ": typ, "task": task, "key": key, "value": v, "form": form, "toks": toks})
+                    cases.append({"kind": "valshape", "sigid": sigid, "typ": typ, "task": task, "key": key, "value": v, "form": form,
+                                  "toks": toks})
     return cases
 
 
 def valshape_argv(case):
     toks = case["toks"]
-    if case["task"] == "ip":
-        return ["ip"] + toks + ["nx", "--flag"]
+    if case["task"] in ("ip", "fp", "ft"):
+        return [case["task"]] + toks + ["nx", "--flag"]
     if case["task"] is None:
         return toks + ["vt", "posv", "nx", "--flag"] if case["value"] != "" or case["form"] != "spaced" else toks + ["vt", "posv", "nx", "--flag"]
     if case["key"] == "pos":
@@ -660,22 +693,42 @@ def valshape_argv(case):
     return ["vt", "posv"] + toks + ["nx", "--flag"]
 
 
-def oracle_valshape(case, exc, kws):
+def parse_message(parser, argv):
+    """the text of the ParseError the real parser raises for argv (None when it does not raise one)"""
+    from invoke.exceptions import ParseError
+    try:
+        parser.parse_argv(list(argv))
+    except ParseError as e:
+        return str(e)
+    except Exception:  # noqa
+        return None
+    return None
+
+
+def oracle_valshape(case, exc, kws, msg=None):
     """str-like owners: the flag is known and has a value - none of the documented error situations applies - so the parse
-    must succeed and deliver the value verbatim.  int owners: the outcome is what Python's int(text) says."""
+    must succeed and deliver the value verbatim.  int / float owners: the outcome is what Python's int(text) / float(text)
+    says, and a refusal is the documented ParseError whose message names the argument and quotes the value.  Flags that take
+    no value: whatever is glued / `=`-attached to them, nothing but ParseError may leave the parser."""
     if exc not in (None, "ParseError"):
-        return "exception of type %s escaped parse_argv (only ParseError is documented)" % exc
+        return "exception of type %s escaped parse_argv (only ParseError is documented); %s %s given %r as %r" % (
+            exc, case["typ"], case["key"], case["value"], case["toks"])
     v, key = case["value"], case["key"]
+    if case["typ"] == "novalue":
+        return None
     want = v
-    if case["typ"] == "int":
-        want = py_int(v)
+    if case["typ"] in ("int", "float"):
+        want = py_int(v) if case["typ"] == "int" else py_float(v)
         if want is None:
             if exc is None:
-                return "int-typed %s accepted the text %r although int(%r) raises ValueError" % (key, v, v)
+                return "%s-typed %s accepted the text %r although %s(%r) raises ValueError" % (case["typ"], key, v, case["typ"], v)
+            if msg is not None and (repr(v) not in msg or key not in msg or "invalid value" not in msg):
+                return ("the ParseError for the invalid %s value %r of %s does not name the argument and quote the value: %r"
+                        % (case["typ"], v, key, msg))
             return None
     if exc is not None:
         return ("%s %s given the value %r as %r was refused with a ParseError although the flag is known and has a value%s"
-                % (case["typ"], key, v, case["toks"], "" if case["typ"] == "str" else " that int() accepts (= %r)" % want))
+                % (case["typ"], key, v, case["toks"], "" if case["typ"] == "str" else " that %s() accepts (= %r)" % (case["typ"], want)))
     owner = case["task"]
     got = None
     for name, kw in kws:
@@ -815,9 +868,10 @@ def interleave_cases(rng, n):
 
 def replay(case):
     if case.get("kind") == "valshape":
-        bench = Bench(VALSHAPE_SIG)
-        _, exc, _, kws = impl_parse(bench.parser, valshape_argv(case))
-        why = oracle_valshape(case, exc, kws)
+        parser = build(VALSHAPE2_SIG if case.get("sigid") == "V2" else VALSHAPE_SIG)[0]
+        argv = valshape_argv(case)
+        _, exc, _, kws = impl_parse(parser, argv)
+        why = oracle_valshape(case, exc, kws, parse_message(parser, argv) if exc == "ParseError" else None)
         return why is None, why or "ok"
     if case.get("kind") == "interleave":
         why, _ = interleave_case(case)
@@ -991,28 +1045,41 @@ def run(ctx):
         run_bench(bench, argvs, ctx, out, drv, "fuzz")
     # 3. value shapes: characters special to regexes / string methods in every position and spelling; integer literals
     bench = Bench(VALSHAPE_SIG)
-    vcases = valshape_cases()
+    vall = valshape_cases()
+    vcases = [c for c in vall if c["sigid"] == "V1"]
     argvs = [valshape_argv(c) for c in vcases]
     model = None
     if ctx.model_ok:
         parts = drv.run([bench.header + ";".join(enc_argv(a) for a in argvs)])[0].split(";")
         if parts[0] in ("W0", "W1") and len(parts) == len(argvs) + 1:
             model = parts[1:]
-    for i, (case, argv) in enumerate(zip(vcases, argvs)):
-        got, exc, same, kws = impl_parse(bench.parser, argv)
-        why = oracle_valshape(case, exc, kws)
-        if not same or fingerprint(bench.parser) != bench.fp0:
+    parser2 = build(VALSHAPE2_SIG)[0]
+    fp2 = fingerprint(parser2)
+    idx = -1
+    for case in vall:
+        argv = valshape_argv(case)
+        v1 = case["sigid"] == "V1"
+        if v1:
+            idx += 1
+        parser = bench.parser if v1 else parser2
+        got, exc, same, kws = impl_parse(parser, argv)
+        msg = parse_message(parser, argv) if exc == "ParseError" and case["typ"] in ("int", "float") else None
+        why = oracle_valshape(case, exc, kws, msg)
+        if not same or fingerprint(parser) != (bench.fp0 if v1 else fp2):
             why = why or "parse_argv modified its argv or the parser's contexts"
-            bench.rebuild()
+            if v1:
+                bench.rebuild()
+            else:
+                parser2 = build(VALSHAPE2_SIG)[0]
         out.case(case, True)
         ascii_only = all(ord(ch) < 128 for ch in case["value"])
         out.hist["valshape:%s:%s%s" % (case["typ"], "ok" if exc is None else "ParseError" if exc == "ParseError" else "escape",
                                         "" if ascii_only or case["typ"] == "str" else ":non-ascii(oracle only)")] += 1
-        if model is not None and (ascii_only or case["typ"] == "str"):
+        if v1 and model is not None and (ascii_only or case["typ"] == "str"):
             # the model's int cast is the ASCII part of int(str); non-ASCII digits / whitespace are judged by the oracle only
             out.traces += 1
-            if not same_outcome(got, model[i]):
-                out.disagree(dict(case, sig=VALSHAPE_SIG, argv=argv), got, model[i])
+            if not same_outcome(got, model[idx]):
+                out.disagree(dict(case, sig=VALSHAPE_SIG, argv=argv), got, model[idx])
         if why:
             out.fail(case, why)
     # 4. parses interleaved with other parses (re-entrant from a kind callable; two threads with a deterministic handshake)
